@@ -142,7 +142,8 @@ pub fn public<S: Src, const N: usize>(s: &mut S) {
 
 common::register! {
     q_parse = parse::<_, 64> => 18,
-    q_step = step::<_, 64, false> => 2,
+    q_step = step::<_, 32, false> => 2,
+    t_step_64 = step::<_, 64, false> => 2,
     q_step_sdes = step::<_, 8, true> => 2,
     t_parse = parse::<_, 256> => 66,
     t_step = step::<_, 256, false> => 2,
